@@ -26,17 +26,26 @@ import (
 func init() { logger.InitNop() }
 
 // c09RawSpec turns a spec record of RateLimiterFilter_Gen into the raw (YAML-shaped) filter spec.
-// Policy: period 60m, timeout th*30m.
-func c09RawSpec(s vx.M, period time.Duration) map[string]interface{} {
+// Policy fields the model marks as omitted (L = 0, tmo = -1, per = "d") are left out, so that the
+// filter's defaults apply (50, 100ms, 10ms); an explicit period is 1h, an explicit timeout is
+// tmo half-periods.
+func c09RawSpec(s vx.M) map[string]interface{} {
 	var pols []interface{}
 	for _, p := range vx.List(s["pols"]) {
 		pm := p.(vx.M)
-		pols = append(pols, map[string]interface{}{
-			"name":               vx.Str(pm["name"]),
-			"timeoutDuration":    (time.Duration(vx.Int(pm["th"])) * period / 2).String(),
-			"limitRefreshPeriod": period.String(),
-			"limitForPeriod":     vx.Int(pm["L"]),
-		})
+		pol := map[string]interface{}{"name": vx.Str(pm["name"])}
+		period := 10 * time.Millisecond
+		if vx.Str(pm["per"]) != "d" {
+			period = time.Hour
+			pol["limitRefreshPeriod"] = "1h"
+		}
+		if tmo := vx.Int(pm["tmo"]); tmo >= 0 {
+			pol["timeoutDuration"] = (time.Duration(tmo) * period / 2).String()
+		}
+		if l := vx.Int(pm["L"]); l > 0 {
+			pol["limitForPeriod"] = l
+		}
+		pols = append(pols, pol)
 	}
 	var urls []interface{}
 	for _, u := range vx.List(s["urls"]) {
@@ -66,18 +75,31 @@ func c09RawSpec(s vx.M, period time.Duration) map[string]interface{} {
 	}
 }
 
+func c09HasDefaultPeriod(s vx.M) bool {
+	for _, p := range vx.List(s["pols"]) {
+		if vx.Str(p.(vx.M)["per"]) == "d" {
+			return true
+		}
+	}
+	return false
+}
+
 func c09NewGeneration(raw map[string]interface{}, prev filters.Filter) (filters.Filter, error) {
 	spec, err := filters.NewSpec(nil, "c09pipeline", raw)
 	if err != nil {
 		return nil, err
 	}
+	return c09Instantiate(spec, prev), nil
+}
+
+func c09Instantiate(spec filters.Spec, prev filters.Filter) filters.Filter {
 	f := kind.CreateInstance(spec)
 	if prev == nil {
 		f.Init()
 	} else {
 		f.Inherit(prev)
 	}
-	return f, nil
+	return f
 }
 
 // c09Handle sends one request through the filter; returns result and status code (0 = no response set).
@@ -110,54 +132,100 @@ func c09Handle(f filters.Filter, method, path string, cancelled bool) (res strin
 	return res, code, nil
 }
 
+// c09RunBehaviour replays one behaviour on fresh filter generations. The specs are parsed and
+// validated (filters.NewSpec) beforehand; the returned duration covers everything from just before
+// the first Init to the last step, i.e. it bounds the age of every limiter involved.
+func c09RunBehaviour(beh []vx.M) (bad string, step int, hit int, elapsed time.Duration, err error) {
+	specs := make([]filters.Spec, len(beh))
+	for i, st := range beh {
+		if a := vx.Str(st["a"]); a == "init" || a == "reload" {
+			sp, e := filters.NewSpec(nil, "c09pipeline", c09RawSpec(st["spec"].(vx.M)))
+			if e != nil {
+				return "", i, 0, 0, fmt.Errorf("spec of the model rejected by filters.NewSpec: %v", e)
+			}
+			specs[i] = sp
+		}
+	}
+	t0 := time.Now()
+	f := c09Instantiate(specs[0], nil)
+	for si, st := range beh[1:] {
+		switch vx.Str(st["a"]) {
+		case "reload":
+			f = c09Instantiate(specs[si+1], f) // the old generation is not used any more (its use after Inherit is C11's business)
+		case "req":
+			k, adm := vx.Int(st["k"]), 0
+			m, path := vx.Str(st["m"]), vx.Chars(st["path"])
+			for j := 0; j < k && bad == ""; j++ {
+				res, code, e := c09Handle(f, m, path, true)
+				switch {
+				case e != nil:
+					bad = "Handle failed: " + e.Error()
+				case res == "" && code == 0:
+					adm++
+				case res == resultRateLimited && code == 429:
+				default:
+					bad = fmt.Sprintf("Handle answered (%q, status %d): neither admitted nor (rateLimited, 429)", res, code)
+				}
+			}
+			if bad == "" && adm != vx.Int(st["adm"]) {
+				bad = fmt.Sprintf("%d of %d requests admitted, specification says %d", adm, k, vx.Int(st["adm"]))
+			}
+		}
+		if bad != "" {
+			return bad, si + 1, vx.Int(st["hit"]), time.Since(t0), nil
+		}
+	}
+	return "", 0, 0, time.Since(t0), nil
+}
+
 func TestVerifC09FilterReplay(t *testing.T) {
 	behs := vx.ReadBehaviours(t, "VERIF_IN")
 	w := vx.NewWriter(t, "VERIF_OUT")
 	defer w.Close()
 	t0 := time.Now()
-	steps, mism := 0, 0
+	steps, mism, fast, slow := 0, 0, 0, 0
 	for bi, beh := range behs {
 		if len(beh) == 0 || vx.Str(beh[0]["a"]) != "init" {
 			t.Fatalf("behaviour %d does not start with init", bi)
 		}
-		f, err := c09NewGeneration(c09RawSpec(beh[0]["spec"].(vx.M), time.Hour), nil)
-		if err != nil {
-			w.Raw(vx.M{"k": "error", "b": bi, "what": "spec of the model rejected by filters.NewSpec: " + err.Error()})
-			continue
-		}
-		for si, st := range beh[1:] {
-			steps++
-			bad := ""
-			switch vx.Str(st["a"]) {
-			case "reload":
-				nf, err := c09NewGeneration(c09RawSpec(st["spec"].(vx.M), time.Hour), f)
-				if err != nil {
-					w.Raw(vx.M{"k": "error", "b": bi, "what": "reload: " + err.Error()})
-					bad = "-"
-					break
-				}
-				f = nf // the old generation is not used any more (its use after Inherit is C11's business)
-			case "req":
-				res, code, err := c09Handle(f, vx.Str(st["m"]), vx.Chars(st["path"]), true)
-				if err != nil {
-					bad = "Handle failed: " + err.Error()
-				} else if res != vx.Str(st["res"]) {
-					bad = fmt.Sprintf("result %q, specification says %q", res, vx.Str(st["res"]))
-				} else if code != vx.Int(st["code"]) {
-					bad = fmt.Sprintf("status code %d, specification says %d", code, vx.Int(st["code"]))
-				}
+		// policies that leave the refresh period to its default (10ms) are only predictable while
+		// every limiter is younger than that: measure, and repeat the behaviour if it was too slow
+		needFast := false
+		for _, st := range beh {
+			if sp, ok := st["spec"].(vx.M); ok && c09HasDefaultPeriod(sp) {
+				needFast = true
 			}
-			if bad == "-" {
+		}
+		steps += len(beh) - 1
+		tries := 1
+		if needFast {
+			tries = 60
+			fast++
+		}
+		done := false
+		for a := 0; a < tries && !done; a++ {
+			bad, step, hit, el, err := c09RunBehaviour(beh)
+			if err != nil {
+				w.Raw(vx.M{"k": "error", "b": bi, "what": err.Error()})
+				done = true
 				break
 			}
+			if needFast && el >= 8*time.Millisecond {
+				continue
+			}
+			done = true
 			if bad != "" {
 				mism++
-				w.Raw(vx.M{"k": "mismatch", "b": bi, "step": si + 1, "what": bad, "hit": vx.Int(st["hit"]), "behaviour": beh[:si+2]})
-				break
+				w.Raw(vx.M{"k": "mismatch", "b": bi, "step": step, "what": bad, "hit": hit, "fast": needFast,
+					"elapsed_us": int(el / time.Microsecond), "behaviour": beh[:step+1]})
 			}
 		}
+		if !done {
+			slow++
+			w.Raw(vx.M{"k": "slow", "b": bi})
+		}
 	}
-	w.Raw(vx.M{"k": "summary", "behaviours": len(behs), "steps": steps, "mismatches": mism,
+	w.Raw(vx.M{"k": "summary", "behaviours": len(behs), "steps": steps, "mismatches": mism, "fast": fast, "slow": slow,
 		"elapsed_ms": int(time.Since(t0) / time.Millisecond)})
 }
 
